@@ -502,10 +502,8 @@ def run(ctx):
         ctx.violate("R6", "wfx: cannot find the store of the labelled gradient rows", relpath="iodata/formats/wfx.py", function="iodata.formats.wfx", construct="wfx gradient store")
 
     # ------------------------------------------------------------------ R1 (offset dataflow)
-    try:
-        from .offsets import check_reader_offsets
-    except ImportError:
-        check_reader_offsets = None
-    if check_reader_offsets is not None:
+    from .offsets import check_reader_offsets
+
+    if True:
         ctx.rule("R1", "one-based indices in files become zero-based exactly once", "every bond / shell / integral is attached to the neighbouring atom or function")
         check_reader_offsets(ctx)
